@@ -190,6 +190,14 @@ pub enum Op {
     PeerRaw { bytes: Vec<u8> },
     /// peer frames are delivered in buffers of n bytes (0 = one frame per buffer)
     SetChunk { n: u16 },
+    /// a QoS>0 publish whose transport write fails without killing the connection (the
+    /// application releases the id as instructed and carries on)
+    PubFailContinue { qos: u8, topic: u8, reg: u32 },
+    /// PUBREL from the peer carrying a reason code (v5.0)
+    PeerPubrelRc { id: u32, rc: u8 },
+    /// one more frame of the peer that was already in the receive buffer when the connection
+    /// asked to close: the application finishes the buffer (model-free oracles from here on)
+    PeerAfterClose { kind: u8 },
     /// role Any: play the other side of the protocol on the next connection
     SwapSide,
     /// regulate_for_store on a v5 PUBLISH (alias: 0 none, n = topic + alias, 0x80|n alias only)
@@ -872,6 +880,68 @@ impl Solo {
             Op::SetChunk { n } => {
                 self.chunk = *n;
             }
+            Op::PubFailContinue { qos, topic, reg } => {
+                if !self.connected() || self.w.want_close || *qos == 0 {
+                    return;
+                }
+                let id = if *reg != 0 {
+                    if !self.w.register(*reg) {
+                        return;
+                    }
+                    self.owned.insert(*reg);
+                    *reg
+                } else {
+                    match self.take_id() {
+                        Some(i) => i,
+                        None => return,
+                    }
+                };
+                let mut p = Pkt::new(v, PUBLISH);
+                p.qos = *qos;
+                p.id = Some(id);
+                p.topic = TOPICS[*topic as usize % TOPICS.len()].into();
+                p.payload = self.payload(0);
+                let evs = self.app_send_with_id(&p);
+                for e in &evs {
+                    if let Ev::Send { rel: Some(r), .. } = e {
+                        // the abandoned exchange gives its Receive Maximum slot back: bookkeeping stays exact
+                        let r = self.w.release(*r);
+                        self.handle(&r);
+                        self.fault("write_failure_connection_continues");
+                    }
+                }
+            }
+            Op::PeerPubrelRc { id, rc } => {
+                if !self.peer_up() || (self.acting_client && self.w.m.st != St::Connected && !self.cfg.lenient) {
+                    return;
+                }
+                self.peer_q2.retain(|x| x != id);
+                let mut p = Pkt::new(v, PUBREL).with_id(*id);
+                if v == 5 {
+                    p.rc = Some(*rc);
+                }
+                self.peer_send(&p);
+            }
+            Op::PeerAfterClose { kind } => {
+                if !self.w.want_close || self.w.m.st == St::Disc && self.w.rx_pending() == 0 && false {
+                    return;
+                }
+                self.w.set_lenient();
+                let keep = self.w.read_past_close;
+                self.w.read_past_close = true;
+                let mut p = Pkt::new(v, *kind);
+                if *kind == PUBLISH {
+                    p.topic = TOPICS[0].into();
+                    p.payload = b"late".to_vec();
+                }
+                self.fault("frame_after_close_request");
+                let bytes = wire::encode(&p, self.w.idw);
+                let lists = self.w.feed(&bytes);
+                self.w.read_past_close = keep;
+                for l in lists {
+                    self.handle(&l);
+                }
+            }
             Op::SwapSide => {
                 if self.cfg.role == Role::Any && self.w.m.st == St::Disc && !self.w.want_close {
                     self.acting_client = !self.acting_client;
@@ -1068,6 +1138,9 @@ pub fn gen_op(s: &Solo, r: &mut Rng, prof: &GenProfile) -> Op {
     let cfg = &s.cfg;
     let m = &s.w.m;
     if s.w.want_close {
+        if r.chance(1, 8) {
+            return Op::PeerAfterClose { kind: *r.pick(&[PUBLISH, PINGREQ, PINGRESP, PUBACK]) };
+        }
         if r.chance(4, 5) {
             return Op::Close { partial: 0 };
         }
@@ -1160,6 +1233,9 @@ pub fn gen_op(s: &Solo, r: &mut Rng, prof: &GenProfile) -> Op {
             }
             let pad = if m.mps_send.is_some() && r.chance(1, 4) { *r.pick(&[PAD_AT_LIMIT_MINUS_1, PAD_AT_LIMIT, PAD_AT_LIMIT, PAD_AT_LIMIT_PLUS_1]) } else if r.chance(1, 4) { r.below(24) as u16 } else { 0 };
             let fail = cfg.f_writefail && r.chance(1, 30);
+            if cfg.f_writefail && qos > 0 && r.chance(1, 40) {
+                return Op::PubFailContinue { qos, topic, reg: *r.pick(&[0u32, 0, 65535, 65534]) };
+            }
             Op::Pub { qos, topic, alias, pad, fail }
         }
         1 => {
@@ -1228,7 +1304,7 @@ pub fn gen_op(s: &Solo, r: &mut Rng, prof: &GenProfile) -> Op {
         14 => Op::PeerSuback { nth: r.below(4) as u8, wrong: cfg.f_wrongack && r.chance(1, 10) },
         _ => {
             let id = *r.pick(&s.peer_q2);
-            Op::PeerPubrel { id }
+            if v5 && r.chance(1, 5) { Op::PeerPubrelRc { id, rc: *r.pick(&[0u8, 0x92]) } } else { Op::PeerPubrel { id } }
         }
     }
 }
